@@ -19,8 +19,8 @@ structure Closed (P : St → Prop) : Prop where
   reclaim : ∀ st sid, P st → P (st.reclaim sid)
   newSession : ∀ st p, P st → st.lookup p = none → (p.lport, p.proto) ∈ st.eps → P (st.newSession p)
   mapHolders : ∀ st g, P st → HBenign g → P { st with holders := st.holders.map g }
-  misc : ∀ st (now timeout maxIdle : Nat) (res : List Nat), P st →
-    P { st with now := now, timeout := timeout, maxIdle := maxIdle, resAlive := res }
+  misc : ∀ st (now timeout maxIdle : Nat) (res dirty : List Nat), P st →
+    P { st with now := now, timeout := timeout, maxIdle := maxIdle, resAlive := res, dirty := dirty }
   teardownEnd : ∀ st, P st → P { (st.freeObjs st.ctxObjs) with ctxObjs := [], resAlive := [], freed := true }
 
 namespace Closed
@@ -57,12 +57,57 @@ theorem reclaimStep {st : St} (h : P st) (sid : Nat) : P (st.reclaimStep sid) :=
     · exact c.reclaim _ _ h
     · exact c.refRelease _ _ h
 
+theorem notifyOne {st : St} (h : P st) (x : Holder) : P (st.notifyOne x) := by
+  unfold St.notifyOne
+  split
+  · exact h
+  · refine c.mapHolders _ _ (c.benign _ _ _ h (fun s => ⟨rfl, rfl, rfl⟩)) ?_
+    intro y
+    by_cases e : y = x
+    · subst e; simp [setNote_isAlloc]
+    · simp [e]
+
+theorem notifyRes {st : St} (h : P st) (k : Nat) : P (st.notifyRes k) :=
+  foldl_inv P St.notifyOne (fun _ x ha => c.notifyOne ha x) _ st h
+
+theorem checkNotify {st : St} (h : P st) : P st.checkNotify := by
+  unfold St.checkNotify
+  have h1 : P ((st.resAlive.filter (· ∈ st.dirty)).foldl St.notifyRes st) :=
+    foldl_inv P St.notifyRes (fun _ k ha => c.notifyRes ha k) _ st h
+  exact c.misc _ _ _ _ _ [] h1
+
 theorem prepareIo {st : St} (h : P st) : P st.prepareIo := by
+  have h0 := c.checkNotify h
   unfold St.prepareIo
   apply foldl_inv P
   · intro a ep ha
     exact foldl_inv P St.reclaimStep (fun b sid hb => c.reclaimStep hb sid) _ a ha
-  · exact foldl_inv P St.retransmit (fun a x ha => c.retransmit ha x) _ st h
+  · exact foldl_inv P St.retransmit (fun a x ha => c.retransmit ha x) _ _ h0
+
+theorem addObserver {st : St} (h : P st) (sid k q tok : Nat) (hl : ∃ s ∈ st.sessions, s.sid = sid) :
+    P (st.addObserver sid k q tok) := by
+  unfold St.addObserver
+  split
+  · exact h
+  · split
+    · exact c.addHolder _ _ _ (c.dropHolder _ _ h) (live_dropHolder _ hl)
+    · exact c.addHolder _ _ _ h hl
+
+theorem delObserverReq {st : St} (h : P st) (sid k q tok : Nat) : P (st.delObserverReq sid k q tok) := by
+  unfold St.delObserverReq
+  split
+  · exact c.dropHolder _ _ h
+  · split
+    · exact c.dropHolder _ _ h
+    · exact h
+
+theorem rstNote {st : St} (h : P st) (sid n : Nat) : P (st.rstNote sid n) := by
+  unfold St.rstNote
+  split
+  · rename_i x hx
+    rw [rstCancel_eq st sid x (findHolder_some hx).1]
+    exact c.dropHolder _ _ h
+  · exact h
 
 omit c in
 theorem lookup_reclaim_none {st : St} {p : Peer} (sid : Nat) (h : st.lookup p = none) : (st.reclaim sid).lookup p = none := by
@@ -106,18 +151,12 @@ theorem serve {st : St} (h : P st) (sid : Nat) (r : Req) (hl : ∃ s ∈ st.sess
   unfold St.serve
   cases r with
   | plain => exact h
-  | obsReg k =>
+  | obsReg k q tok =>
     dsimp only
     split
-    · split
-      · exact h
-      · exact c.addHolder _ _ _ h hl
+    · exact c.addObserver h _ _ _ _ hl
     · exact h
-  | obsDereg k =>
-    dsimp only
-    split
-    · exact c.dropHolder _ _ h
-    · exact h
+  | obsDereg k q tok => exact c.delObserverReq h _ _ _ _
   | async =>
     dsimp only
     split
@@ -216,19 +255,45 @@ theorem Closed.step {P : St → Prop} (c : Closed P) {st : St} (h : P st) (e : E
       split
       · dsimp only
         have h1 : P ((st.holders.filter fun h => isObs k h.kind).foldl
-            (fun acc h => (acc.updSess h.sid fun t => { t with last := st.now }).dropHolder h) st) := by
+            (fun acc h => (acc.updSess h.sid fun t => { t with last := st.now, notes := t.notes + 1 }).dropHolder h) st) := by
           apply foldl_inv P
           · intro a x ha
             apply c.dropHolder
             refine c.benign _ _ _ ha ?_
             intro s; exact ⟨rfl, rfl, rfl⟩
           · exact h
-        exact c.misc _ _ _ _ _ h1
+        exact c.misc _ _ _ _ _ _ h1
       · exact h
-    | advance d => exact c.misc st (st.now + d) st.timeout st.maxIdle st.resAlive h
+    | changed k =>
+      dsimp only
+      split
+      · split
+        · exact c.misc st st.now st.timeout st.maxIdle st.resAlive _ h
+        · exact h
+      · exact h
+    | noteRst p j =>
+      dsimp only
+      split
+      · exact h
+      · rename_i s hs
+        split
+        · dsimp only
+          apply c.prepareIo
+          apply c.rstNote
+          exact c.getSession h p (Or.inl (by simp [hs]))
+        · exact h
+    | noteAck p j =>
+      dsimp only
+      split
+      · exact h
+      · rename_i s hs
+        split
+        · exact c.prepareIo (c.getSession h p (Or.inl (by simp [hs])))
+        · exact h
+    | advance d => exact c.misc st (st.now + d) st.timeout st.maxIdle st.resAlive st.dirty h
     | io => exact c.prepareIo h
-    | setMaxIdle n => exact c.misc st st.now st.timeout n st.resAlive h
-    | setTimeout n => exact c.misc st st.now n st.maxIdle st.resAlive h
+    | setMaxIdle n => exact c.misc st st.now st.timeout n st.resAlive st.dirty h
+    | setTimeout n => exact c.misc st st.now n st.maxIdle st.resAlive st.dirty h
     | freeContext =>
       dsimp only
       apply c.teardownEnd
@@ -368,12 +433,12 @@ theorem SInv.newSession {st : St} (h : SInv st) (hH : HInv st) (p : Peer) (hl : 
     show a.sid ≠ st.next
     omega
   · intro t ht
-    have ht' : t ∈ st.sessions ++ [⟨st.next, st.nsess, p, 0, st.now, 0, 0⟩] := ht
+    have ht' : t ∈ st.sessions ++ [⟨st.next, st.nsess, p, 0, st.now, 0, 0, 0⟩] := ht
     rcases List.mem_append.mp ht' with h1 | h1
     · exact h.ep t h1
     · simp only [List.mem_singleton] at h1; subst h1; exact hp
   · intro x hx
-    have hx' : x ∈ (st.sessions ++ [(⟨st.next, st.nsess, p, 0, st.now, 0, 0⟩ : Sess)]).map (fun s : Sess => s.sid) := hx
+    have hx' : x ∈ (st.sessions ++ [(⟨st.next, st.nsess, p, 0, st.now, 0, 0, 0⟩ : Sess)]).map (fun s : Sess => s.sid) := hx
     show List.count _ (st.events ++ [SEvent.new st.next]) = 1 ∧ List.count _ (st.events ++ [SEvent.new st.next]) = 0
     rw [List.map_append, List.mem_append] at hx'
     rcases hx' with h1 | h1
@@ -388,10 +453,10 @@ theorem SInv.newSession {st : St} (h : SInv st) (hH : HInv st) (p : Peer) (hl : 
     have hx1 : x ∉ st.sids ∧ x ≠ st.next := by
       constructor
       · intro hin; apply hx
-        show x ∈ (st.sessions ++ [(⟨st.next, st.nsess, p, 0, st.now, 0, 0⟩ : Sess)]).map (fun s : Sess => s.sid)
+        show x ∈ (st.sessions ++ [(⟨st.next, st.nsess, p, 0, st.now, 0, 0, 0⟩ : Sess)]).map (fun s : Sess => s.sid)
         rw [List.map_append]; exact List.mem_append.mpr (Or.inl hin)
       · intro e; apply hx
-        show x ∈ (st.sessions ++ [(⟨st.next, st.nsess, p, 0, st.now, 0, 0⟩ : Sess)]).map (fun s : Sess => s.sid)
+        show x ∈ (st.sessions ++ [(⟨st.next, st.nsess, p, 0, st.now, 0, 0, 0⟩ : Sess)]).map (fun s : Sess => s.sid)
         rw [List.map_append]; apply List.mem_append.mpr; right; simp [e]
     show List.count _ (st.events ++ [SEvent.new st.next]) = List.count _ (st.events ++ [SEvent.new st.next]) ∧
       List.count _ (st.events ++ [SEvent.new st.next]) ≤ 1
@@ -647,7 +712,7 @@ theorem Inv.closed : Closed Inv where
   newSession st p h hl hp := ⟨h.H.newSession p, h.S.newSession h.H p hl hp, h.L.newSession p⟩
   mapHolders st g h hg :=
     ⟨h.H.mapHolders g (fun x => (hg x).1), h.S.same rfl rfl rfl (Nat.le_refl _), h.L.mapHolders g hg⟩
-  misc st now timeout maxIdle res h :=
+  misc st now timeout maxIdle res dirty h :=
     ⟨h.H.congr rfl rfl rfl, h.S.same rfl rfl rfl (Nat.le_refl _), h.L.same rfl rfl rfl rfl⟩
   teardownEnd st h := ⟨h.H.congr rfl rfl rfl, h.S.same rfl rfl rfl (Nat.le_refl _), h.L.teardownEnd⟩
 
@@ -843,5 +908,31 @@ theorem freeEndpoints_empty {a : St} (h : Inv a) :
   intro x hx
   obtain ⟨s, hs', _⟩ := i1.H.live x hx
   rw [hs] at hs'; simp at hs'
+
+/-! ## holder counts across the observer primitives (for `reregistration_keeps_refcount`, `rst_releases_exactly_one`) -/
+
+theorem holds_dropHolder (st : St) (x : Holder) (hx : x ∈ st.holders) (y : Nat) :
+    st.holds y = (st.dropHolder x).holds y + (if x.sid = y then 1 else 0) := by
+  have e := countP_erase_mem st.holders x (fun h => h.sid == y) hx
+  unfold St.holds
+  rw [holders_dropHolder_mem st x hx, e]
+  simp
+
+theorem holders_addHolder_obs (st : St) (sid k q tok n : Nat) :
+    (st.addHolder sid (.obs k q tok n)).holders = st.holders ++ [⟨st.next, sid, .obs k q tok n⟩] := rfl
+
+theorem holds_addHolder_obs (st : St) (sid k q tok n : Nat) (y : Nat) :
+    (st.addHolder sid (.obs k q tok n)).holds y = st.holds y + (if sid = y then 1 else 0) := by
+  unfold St.holds
+  rw [holders_addHolder_obs]
+  exact holds_append st _ y
+
+/-- reference counts follow holder counts: if both states satisfy the invariant and the holder counts differ by `d`,
+    so do the reference counts of corresponding sessions (no truncated subtraction involved) -/
+theorem ref_of_holds {st st' : St} (hI : Inv st) (hI' : Inv st') (d : Nat → Nat)
+    (hh : ∀ y, st.holds y = st'.holds y + d y) :
+    ∀ s ∈ st.sessions, ∀ t ∈ st'.sessions, t.sid = s.sid → s.ref = t.ref + d s.sid := by
+  intro s hs t ht e
+  rw [hI.H.ref s hs, hI'.H.ref t ht, e]; exact hh s.sid
 
 end Coap.Sessions
